@@ -18,10 +18,10 @@ package scheduling
 //@   modifies pod.Spec.Affinity.NodeAffinity.RequiredDuringSchedulingIgnoredDuringExecution.NodeSelectorTerms
 //@   let before = old(reqSel(pod).NodeSelectorTerms)
 //@   let after = reqSel(pod).NodeSelectorTerms
+//@   ensures [neverLast] (old(hasReqSel(pod)) && len(before) >= 1) ==> len(after) >= 1
 //@   ensures [exact] (result != nil) <==> (old(hasReqSel(pod)) && len(before) > 1)
 //@   ensures [dropsFirst] result != nil ==> (len(after) == len(before) - 1 && (forall j int {after[j]} :: (0 <= j && j < len(after)) ==> &after[j] == &before[j + 1]))
 //@   ensures [kept] (result == nil && old(hasReqSel(pod))) ==> after == before
-//@   ensures [neverLast] (old(hasReqSel(pod)) && len(before) >= 1) ==> len(after) >= 1
 
 // removeTopologySpreadScheduleAnyway: removes at most one spread constraint, and only one whose WhenUnsatisfiable is
 // ScheduleAnyway (a preference); the last element takes its place, every other constraint keeps its slot; every
@@ -32,8 +32,25 @@ package scheduling
 //@   modifies pod.Spec.TopologySpreadConstraints, pod.Spec.TopologySpreadConstraints[:]
 //@   let before = old(tscs(pod))
 //@   let n = len(old(tscs(pod)))
+//@   ensures [hardKept] forall j int {before[j]} :: (0 <= j && j < n && old(before[j].WhenUnsatisfiable) != corev1.ScheduleAnyway) ==> (exists k int {tscs(pod)[k]} :: 0 <= k && k < len(tscs(pod)) && tscs(pod)[k] == old(before[j]))
 //@   ensures [none] result == nil ==> (tscs(pod) == before && (forall j int {before[j]} :: (0 <= j && j < n) ==> (before[j] == old(before[j]) && before[j].WhenUnsatisfiable != corev1.ScheduleAnyway)))
 //@   ensures [one] result != nil ==> (len(tscs(pod)) == n - 1 && loc(tscs(pod)) == loc(before) && (exists i int {before[i]} :: 0 <= i && i < n && old(before[i].WhenUnsatisfiable) == corev1.ScheduleAnyway && (forall j int {before[j]} :: (0 <= j && j < n - 1) ==> tscs(pod)[j] == old(before[j == i ? n - 1 : j]))))
-//@   ensures [hardKept] forall j int {before[j]} :: (0 <= j && j < n && old(before[j].WhenUnsatisfiable) != corev1.ScheduleAnyway) ==> (exists k int {tscs(pod)[k]} :: 0 <= k && k < len(tscs(pod)) && tscs(pod)[k] == old(before[j]))
 //@   loop 1 invariant [same] tscs(pod) == before && (forall j int {before[j]} :: (0 <= j && j < n) ==> before[j] == old(before[j]))
 //@   loop 1 invariant [hard] forall j int {before[j]} :: (0 <= j && j <= $i) ==> before[j].WhenUnsatisfiable != corev1.ScheduleAnyway
+
+// toleratePreferNoScheduleTaints: the only change to the pod is one more toleration at the end of the list, and that
+// toleration (operator Exists, effect PreferNoSchedule, no key) can only ever tolerate PreferNoSchedule taints - it
+// never makes a NoSchedule / NoExecute taint acceptable. Existing tolerations keep their slots.
+//@ func (*Preferences).toleratePreferNoScheduleTaints
+//@   prop C01
+//@   modifies pod.Spec.Tolerations, pod.Spec.Tolerations[:]
+//@   after (*Toleration).MatchToleration assume [pureToleration] forall q *corev1.Toleration {q.Key} {q.Operator} {q.Value} {q.Effect} {q.TolerationSeconds} :: q.Key == old(q.Key) && q.Operator == old(q.Operator) && q.Value == old(q.Value) && q.Effect == old(q.Effect) && q.TolerationSeconds == old(q.TolerationSeconds)
+//@   after (*Toleration).MatchToleration assume [pureCells] forall c *int64 {*c} :: *c == old(*c)
+//@   let before = old(pod.Spec.Tolerations)
+//@   let now = pod.Spec.Tolerations
+//@   ensures [kept] result == nil ==> now == before
+//@   ensures [added] result != nil ==> (len(now) == len(before) + 1 && now[len(before)].Operator == corev1.TolerationOpExists && now[len(before)].Effect == corev1.TaintEffectPreferNoSchedule && now[len(before)].Key == "" && now[len(before)].Value == "")
+//@   ensures [others] forall j int {now[j]} :: (0 <= j && j < len(before)) ==> (now[j].Key == old(before[j].Key) && now[j].Operator == old(before[j].Operator) && now[j].Value == old(before[j].Value) && now[j].Effect == old(before[j].Effect) && now[j].TolerationSeconds == old(before[j].TolerationSeconds))
+//@   ensures [onlyPrefer] result != nil ==> (forall x *corev1.Taint {x.Effect} :: scheduling.k8sTolerates(&now[len(before)], x) ==> x.Effect == corev1.TaintEffectPreferNoSchedule)
+//@   loop 1 invariant [same] pod.Spec.Tolerations == before && (forall j int {before[j]} :: (0 <= j && j < len(before)) ==> (before[j].Key == old(before[j].Key) && before[j].Operator == old(before[j].Operator) && before[j].Value == old(before[j].Value) && before[j].Effect == old(before[j].Effect) && before[j].TolerationSeconds == old(before[j].TolerationSeconds)))
+//@   loop 1 invariant [cells] forall q *corev1.Toleration {q.Key} {q.Operator} {q.Value} {q.Effect} :: loopentry(allocated(q)) ==> (q.Key == loopentry(q.Key) && q.Operator == loopentry(q.Operator) && q.Value == loopentry(q.Value) && q.Effect == loopentry(q.Effect))
